@@ -351,3 +351,27 @@ Qed.
 Lemma body_view_is_cache_key :
   Gen.body_cache_key = Gen.env_cache_prefix ++ s_body_view /\ Gen.body_property_rewinds_cached = true.
 Proof. split; reflexivity. Qed.
+
+(* The buffered copy that _body leaves under environ['wsgi.input'] (rewound by the body property) is itself a stream
+   from which the next consumer of the environ — a WSGI application mounted behind, a second Request over the same
+   environ without the cache keys — is presented the same body under the same Content-Length, whatever its own buffer
+   size and however the copy fragments its reads; and it cannot be read past its end, which is byte Content-Length of
+   the server's stream. *)
+Lemma buffered_copy_rereads_same_body :
+  forall (data : list N) (sc sc' : list nat) (buf buf' : nat) (cl : Z),
+    0 < buf -> 0 < buf' ->
+    forall body sp s1,
+      body_read_cl (stream_init data sc) buf None cl = BDone body sp s1 ->
+      exists sp' s2,
+        body_read_cl (stream_init body sc') buf' None cl = BDone body sp' s2
+        /\ pos s2 = length body /\ rest s2 = [].
+Proof.
+  intros data sc sc' buf buf' cl Hb Hb' body sp s1 H1.
+  destruct (C04_exact_lemma data sc buf cl Hb) as (s' & E1 & _).
+  rewrite E1 in H1. injection H1 as Hbody _ _. subst body.
+  destruct (C04_exact_lemma (firstn (Z.to_nat cl) data) sc' buf' cl Hb') as (s2 & E2 & Hrest & Hpos & _).
+  rewrite firstn_firstn, Nat.min_id in E2.
+  eexists; exists s2. split; [exact E2|]. split.
+  - rewrite Hpos, firstn_length. lia.
+  - rewrite Hrest. apply skipn_all2. rewrite firstn_length. lia.
+Qed.
